@@ -344,14 +344,23 @@ def run_mask(case):
 # ----------------------------------------------------------------------------- workloads
 
 def directed():
+    writable = [r_ for r_ in c02.RECVS[1:] if r_ != "readonly"]
+    q = 0
     for c in _directed():
         yield c
         if "mask" not in c:
-            k = len(repr(c)) % 4
-            yield dict(c, recv=c02.RECVS[1 + k])
+            q += 1
+            yield dict(c, recv=writable[q % len(writable)])
             if c["vk"] in ("scalar", "flat", "colvec", "collist", "ragged", "flatlist"):
                 yield dict(c, dtype="float64", hostile=True)
-                yield dict(c, dtype="float32", hostile=True, recv=c02.RECVS[1 + (k + 1) % 4])
+                yield dict(c, dtype="float32", hostile=True, recv=writable[(q + 5) % len(writable)])
+    # rectangular contents (all rows equally long) on receivers built from / converted to a 2-D numpy array, hostile float values
+    for recv in ("fromnumpy", "tonumpy-called", "fresh"):
+        for lens in ([3, 3, 3], [1, 1], [2, 2, 2, 2]):
+            for rs, cs, h in [(Ellipsis, None, False), (slice(None), None, False), ([2, 0], None, False) if len(lens) > 2 else ([1, 0], None, False), (slice(None), slice(0, 1), True), (Ellipsis, slice(None, None, -1), True)]:
+                for vk in ("colvec", "collist", "scalar", "ragged", "flat"):
+                    for dtype in ("float64", "float32"):
+                        yield mk_case(lens, rs, cs, h, vk, dtype, recv, hostile=True)
     # more than 100000 selected rows, with gaps and empty rows among them (any chunked index construction must agree with the plain one)
     import random
     rng = random.Random(303)
